@@ -111,6 +111,20 @@ class C18(Prop):
         while True:
             argv = []
             files = {}
+            if rng.random() < 0.1:
+                # where the output goes: a layout with exactly one named file writes <name>.html unless an output is named
+                # (`-` is standard output); with two files, standard input or no layout it is standard output
+                argv += rng.choice([['--layout', 'plain'], ['--layout', 'sequel'], ['--styled'], ['-s'], []])
+                if rng.random() < 0.5:
+                    argv += ['--safe-mode', rng.choice(['0', '1', '3', '9'])]
+                if rng.random() < 0.7:
+                    argv += [rng.choice(['--output', '-o']), rng.choice(['-', '-', 'out.html', 'doc.html'])]
+                names = rng.choice([['doc.rmu'], ['doc.rmu'], ['a.rmu', 'doc.rmu'], ['-'], [], ['doc.rmu', '-']])
+                for n in names:
+                    if n != '-':
+                        files.setdefault(n, self.content(rng))
+                yield {'argv': argv + names, 'files': files, 'stdin': self.content(rng), 'rimurc': None}
+                continue
             if rng.random() < 0.5:
                 argv += [rng.choice(['--safe-mode', '--safeMode']), rng.choice(['0', '1', '2', '3', '5', '9', '15', '16', '-1', 'junk', '', ' 7 '])]
             if rng.random() < 0.2:
